@@ -9,13 +9,21 @@
 (* an object is its birth value; TLC requires every later observation of   *)
 (* the same object to equal it, component by component, and every          *)
 (* re-execution of an object to give the result of its first execution.    *)
-(* Verdict per trace: <<"V", tid, "ok" | component, step, object, drift>>.  *)
+(* The property is about TRANSFORMS: an execution is the instrument, not a  *)
+(* subject.  If the executed object itself differs right after an execute   *)
+(* event (qp.execute re-marks the trainable parameters of autograd tapes in *)
+(* place) that is outside the statement: it is counted (nexec), the object  *)
+(* is re-baselined, and no verdict is given.  A change of any OTHER object   *)
+(* at an execute event, and a change of the re-execution result, are        *)
+(* verdicts.                                                               *)
+(* Verdict per trace: <<"V", tid, "ok" | component, step, object, drift,    *)
+(* nexec>>.                                                                *)
 (***************************************************************************)
 EXTENDS Integers, Sequences, FiniteSets, TLC, Json, IOUtils
 CONSTANT NTRACES
 Traces == JsonDeserialize(IOEnv.TRACE_FILE)
-VARIABLES tid, l, born, res, verdict
-tvars == <<tid, l, born, res, verdict>>
+VARIABLES tid, l, born, res, verdict, nexec
+tvars == <<tid, l, born, res, verdict, nexec>>
 Ev == Traces[tid].events[l]
 
 \* first differing component of an observation against the birth value ("" if none)
@@ -31,11 +39,14 @@ Diff(b, f) == IF f.ops # b.ops THEN "operations"
 Moved(b, f) == f.cont # b.cont \/ f.opids # b.opids \/ f.mcont # b.mcont
 
 Known == DOMAIN born
-BadObs == {i \in 1..Len(Ev.obs) : Ev.obs[i].id \in Known /\ Diff(born[Ev.obs[i].id], Ev.obs[i].fp) # ""}
+Differs == {i \in 1..Len(Ev.obs) : Ev.obs[i].id \in Known /\ Diff(born[Ev.obs[i].id], Ev.obs[i].fp) # ""}
+ByExec == IF Ev.e = "execute" THEN {i \in Differs : Ev.obs[i].id = Ev.on} ELSE {}
+BadObs == Differs \ ByExec
 NewBorn == [o \in Known \cup {Ev.obs[i].id : i \in 1..Len(Ev.obs)} |->
-              IF o \in Known THEN born[o] ELSE Ev.obs[CHOOSE i \in 1..Len(Ev.obs) : Ev.obs[i].id = o].fp]
+              IF o \in Known /\ (\A i \in ByExec : Ev.obs[i].id # o) THEN born[o]
+              ELSE Ev.obs[CHOOSE i \in 1..Len(Ev.obs) : Ev.obs[i].id = o].fp]
 
-TInit == /\ tid \in 1..NTRACES /\ l = 1 /\ born = <<>> /\ res = <<>> /\ verdict = <<"", 0, 0, FALSE>>
+TInit == /\ tid \in 1..NTRACES /\ l = 1 /\ born = <<>> /\ res = <<>> /\ verdict = <<"", 0, 0, FALSE>> /\ nexec = 0
 TStep ==
   /\ l <= Len(Traces[tid].events) /\ verdict[1] = ""
   /\ LET bad == BadObs
@@ -50,9 +61,10 @@ TStep ==
              /\ born' = NewBorn
              /\ res' = IF Ev.e = "execute" /\ Ev.on \notin DOMAIN res
                        THEN [o \in DOMAIN res \cup {Ev.on} |-> IF o = Ev.on THEN Ev.res ELSE res[o]] ELSE res
+  /\ nexec' = nexec + Cardinality(ByExec)
   /\ l' = l + 1 /\ UNCHANGED tid
 TDone == /\ l < 100000 /\ (l > Len(Traces[tid].events) \/ verdict[1] # "")
-         /\ PrintT(<<"V", tid, IF verdict[1] = "" THEN "ok" ELSE verdict[1], verdict[2], verdict[3], IF verdict[4] THEN "moved" ELSE "same">>)
-         /\ l' = 100000 /\ UNCHANGED <<tid, born, res, verdict>>
+         /\ PrintT(<<"V", tid, IF verdict[1] = "" THEN "ok" ELSE verdict[1], verdict[2], verdict[3], IF verdict[4] THEN "moved" ELSE "same", nexec>>)
+         /\ l' = 100000 /\ UNCHANGED <<tid, born, res, verdict, nexec>>
 TNext == TStep \/ TDone
 =============================================================================
